@@ -41,7 +41,7 @@ def targets(groups, flavors=("asan", "tsan")):
 
 TARGETS_QUICK = [lambda: targets(QUICK_GROUPS)]
 
-EXTRACTION_CLASS = {"chain": None, "ufunc_view_op": "binary_ufunc_with_view_operand", "tree_right_view": "binary_op_with_view_as_second_operand"}
+EXTRACTION_CLASS = {"chain": None, "ufunc_view_op": "binary_ufunc_with_view_operand", "tree_right_view": "view_operand_in_non_first_position"}
 UAS_KINDS = ("asan:stack-use-after-scope", "asan:heap-use-after-free", "asan:stack-use-after-return")
 
 SENTINEL = -77770000
@@ -354,7 +354,12 @@ def check_case(ctx, m, t, stats, schedules, geometries, bs_seen, cls_seen, kinds
         raise ValueError("unexpected token %s" % nxt)
     host = t.array()
     t.expect("X")
-    ext = t.array()
+    threw = t.peek() == "T"
+    ext = None
+    if threw:
+        t.s()
+    else:
+        ext = t.array()
     t.expect("NL")
     nl = t.i()
     n = t.i()
@@ -363,10 +368,10 @@ def check_case(ctx, m, t, stats, schedules, geometries, bs_seen, cls_seen, kinds
         raise ValueError("no host array")
     # ---- extraction on the host side: apply(get_function_composition(v), operands as device arrays) must be v
     if ext is None or ext["shape"] != host["shape"] or ext["data"] != host["data"] or ext["tag"] != host["tag"]:
-        ecls = "binary_op_with_view_as_second_operand" if pipe.tree else (EXTRACTION_CLASS[pipe.cls] or pipe.slug)
+        ecls = "view_operand_in_non_first_position" if pipe.tree else (EXTRACTION_CLASS[pipe.cls] or pipe.slug)
         ctx.violation("extraction:%s:apply_of_composition_differs_from_view" % ecls,
                       "%s: apply(get_function_composition(v), get_function_operands(v)) %s, host evaluation of v is shape %s data %s - no launch can reproduce v" % (
-                          pipe.text, "has no value" if ext is None else "is shape %s data %s" % (ext["shape"], ext["data"][:16]), host["shape"], host["data"][:16]), det)
+                          pipe.text, "throws std::out_of_range while it is read" if threw else "has no value" if ext is None else "is shape %s data %s" % (ext["shape"], ext["data"][:16]), host["shape"], host["data"][:16]), det)
         stats["extraction_mismatch"] += 1
         ctx.ev()
         if nl != 0:
